@@ -40,7 +40,11 @@ class Facts:
             if not os.path.exists(p):
                 raise AnchorMissing("fact file missing for crate %s (%s)" % (name, p))
             with open(p) as fh:
-                self._crates[name] = json.load(fh)
+                raw = fh.read()
+            # the driver prints definition paths without re-exports (`core::…`, `alloc::…`);
+            # normalise the three std facade crates to one spelling so rules can say `std::`
+            raw = re.sub(r'(?<![A-Za-z0-9_:])(core|alloc)::', 'std::', raw)
+            self._crates[name] = json.loads(raw)
         return self._crates[name]
 
     def fns(self, crate):
@@ -665,9 +669,8 @@ def root_of(f, local, depth=12, through_calls=None):
 
 
 TRANSPARENT = re.compile(
-    r"(ops::deref::Deref(Mut)?::deref(_mut)?|convert::AsRef::as_ref|convert::AsMut::as_mut|"
-    r"convert::Into::into|convert::From::from|clone::Clone::clone|borrow::Borrow(Mut)?::borrow(_mut)?|"
-    r"ops::index::Index(Mut)?::index(_mut)?)")
+    r"(convert::AsRef::as_ref|convert::AsMut::as_mut|"
+    r"convert::Into::into|convert::From::from|clone::Clone::clone|borrow::Borrow(Mut)?::borrow(_mut)?)")
 
 
 def is_err_exit_block(f, cfg, b):
@@ -797,7 +800,11 @@ def describe_place(f, p):
         elif e[0] == "d":
             base += "@" + e[1]
         elif e[0] == "i":
-            base += "[]"
+            r = root_of(f, e[1])
+            if isinstance(r, tuple) and r[0] == "const" and isinstance(r[1].get("v"), int):
+                base += "[%d]" % r[1]["v"]
+            else:
+                base += "[]"
         elif e[0] == "c":
             base += "[%d]" % e[1]
         elif e[0] == "s":
@@ -872,7 +879,13 @@ def describe(f, o, depth=10, through=TRANSPARENT):
                 return head + "(" + ",".join(describe(f, x, depth - 3, through) for x in rv[3]) + ")"
             return head
         if rv[0] == "disc":
-            return "disc(%s)" % describe_place(f, rv[1])
+            if dbg_name(f, rv[1][0]) or depth <= 3:
+                inner = describe_place(f, rv[1])
+            else:
+                inner = describe(f, ["c", rv[1]], depth - 3, through)
+                if inner in ("?", "tmp") or inner.startswith("tmp"):
+                    inner = describe_place(f, rv[1])
+            return "disc(%s)" % inner
         return rv[0]
     return "?"
 
@@ -1151,3 +1164,55 @@ def controlling_guard(f, cfg, block):
         vals = sorted(str(v) for v, tg in t[2] if tg in sides) + (["_"] if t[3] in sides else [])
         return {"kind": "disc", "bb": d, "values": vals, "tokens": leaves(desc)}
     return {"kind": "none"}
+
+
+def bool_consumers(f, call_bb):
+    """Switches that branch on the boolean result of the call terminating `call_bb` (through copies and
+    `Not`): [(switch_bb, target_if_result_true, target_if_result_false)]."""
+    out = []
+    for i, bb in enumerate(f["bbs"]):
+        if bb.get("cu"):
+            continue
+        tt = bool_switch_targets(bb["t"])
+        p = op_place(bb["t"][1]) if tt else None
+        if p is None:
+            continue
+        neg = False
+        r = root_of(f, p[0])
+        for _ in range(3):
+            if isinstance(r, tuple) and r[0] == "rvalue" and r[1][0] == "un" and r[1][1] == "Not":
+                neg = not neg
+                q = op_place(r[1][2])
+                if q is None:
+                    break
+                r = root_of(f, q[0])
+            else:
+                break
+        if isinstance(r, tuple) and r[0] == "call" and r[3] == call_bb:
+            t, fl = tt
+            out.append((i, fl, t) if neg else (i, t, fl))
+    return out
+
+
+def switch_arms(f, cfg, t, names=None):
+    """{variant-name | '_' : blocks reachable only through that arm} for a switch terminator; the otherwise
+    arm is '_' unless exactly one variant of `names` is not listed (then it carries that name)."""
+    arms = {}
+    for v, tg in t[2]:
+        arms[(names or {}).get(v, str(v))] = tg
+    if names:
+        missing = [nm for nm in names.values() if nm not in arms]
+        if len(missing) == 1:
+            arms[missing[0]] = t[3]
+        elif missing and f["bbs"][t[3]]["t"][0] != "unreachable":
+            arms["_"] = t[3]
+    elif f["bbs"][t[3]]["t"][0] != "unreachable":
+        arms["_"] = t[3]
+    out = {}
+    for nm, tg in arms.items():
+        mine = cfg.reachable_incl(tg)
+        for n2, t2 in arms.items():
+            if n2 != nm and t2 != tg:
+                mine = mine - cfg.reachable_incl(t2)
+        out[nm] = mine
+    return out
